@@ -163,9 +163,9 @@ pub fn run(ctx: &mut Ctx) {
                 _ => 1,
             }
         }
-        let huge: &[usize] = if ctx.quick() { &[1 << 20, 1 << 21] } else { &[1 << 20, 1 << 21, 1 << 22, 3_000_000] };
+        let huge: &[usize] = if ctx.quick() { &[1 << 21, 1 << 22] } else { &[1 << 20, 1 << 21, 1 << 22, 3_000_000] };
         for n in huge.iter() {
-            for d in 0..ctx.n(2, 6) {
+            for d in 0..ctx.n(3, 8) {
                 case += 1;
                 if !ctx.mine(case) || ctx.is_fuzz() || ctx.profile != "release" {
                     continue;
